@@ -8,6 +8,7 @@ R4 path-taking system calls are directory-relative (to an inode/handle descripto
    only at the three by-design sites
 R1 (cont.) polarity of the name predicates (is_safe_path_component, is_dot_or_dotdot, validate_path_component, the passthrough wrapper)
 R3-forget-shape (shared with C08.R3) no forget evicts the root the clamp compares with
+R5-passthrough-delegation (shared with C20.R5) the async passthrough entry points go through the gated sync ones
 """
 from pyfbr import core, vf
 from rules import common
